@@ -40,7 +40,7 @@ def run(ctx):
     ctx.guarded("R12.2", "append", lambda: append(ctx))
     ctx.guarded("R12.3", "move", lambda: move(ctx))
     ctx.guarded("R12.4", "apis", lambda: apis(ctx))
-    ctx.guarded("R12.5", "mutators", lambda: fifo(ctx, "R12.5", "files", {"extend", "drain", "clear", "append", "extend_from_slice", "take"}, floor=2))
+    ctx.guarded("R12.5", "mutators", lambda: fifo(ctx, "R12.5", "files", {"extend", "drain", "clear", "append", "extend_from_slice", "take", "push"}, floor=2))
 
 
 def wrap(ctx):
@@ -78,6 +78,19 @@ def wrap(ctx):
         ctx.ob("R12.1", "array-size", ok_arr, "the descriptor array handed to the receive call is [0; SCM_MAX_FD] (%s)" % (fds[:3],), fn.loc(rc[0][1]))
         # what is appended to self.files on this path
         ext = [e for e in lf.events if e[0] == "call" and last_seg(e[3]) in ("extend", "append", "push", "extend_from_slice", "insert", "splice") and self_field(e[4][2][0], "files")]
+        if not ext:
+            # the wrapped descriptors pushed straight onto self.files, one per iteration of a loop this path ran to exhaustion
+            direct = None
+            for l in lv:
+                if l.kind == "loop":
+                    for e in l.events:
+                        if e[0] == "call" and last_seg(e[3]) == "push" and "Vec" in e[3] and self_field(e[4][2][0], "files"):
+                            direct = e[4][2][0]
+            exhausted = any(t[0] == "discr" and is_call(look(t[1]), "next") and option_is_some(c) is False and any(is_call(s_, "take") for s_ in subterms(t) if isinstance(s_, tuple)) for (t, c, _b) in lf.conds)
+            if direct is not None and exhausted:
+                ok_loop, why = loop_form(ctx, fn, lv, direct, R, fds)
+                ctx.ob("R12.1", "chain", ok_loop, "self.files is extended by pushing File::from_raw_fd(*fd) for fd in fds.iter().take(fd_count), in order, and changed by nothing else on the receive path (%s)" % why, fn.loc(lf.bb))
+                continue
         if len(ext) != 1 or last_seg(ext[0][3]) not in ("extend", "append"):
             ctx.fail("R12.1", "result-shape", "after a successful receive the wrapped descriptors are not appended to self.files exactly once (%s)" % [last_seg(e[3]) for e in ext], fn.loc(lf.bb))
             continue
@@ -164,6 +177,20 @@ def loop_form(ctx, fn, lv, files, R, fds):
     return ok, why
 
 
+def _direct_push_loops(lv):
+    """loop leaves that push onto self.files; every one of them lies after a successful receive"""
+    found = False
+    for l in lv:
+        if l.kind != "loop":
+            continue
+        if any(e[0] == "call" and last_seg(e[3]) == "push" and "Vec" in e[3] and self_field(e[4][2][0], "files") for e in l.events):
+            rc = conn.os_receive_calls(l)
+            if not rc or result_outcome(l, rc[0][4]) != "ok":
+                return False
+            found = True
+    return found
+
+
 def append(ctx):
     """On the receive path: after a successful receive the wrapped descriptors are appended to self.files (which descriptors
     and in which order: R12.1), also on the path that then reports end-of-stream; a failed receive appends nothing."""
@@ -176,6 +203,14 @@ def append(ctx):
         received = result_outcome(lf, rc[0][4]) == "ok"
         ext = [e for e in lf.events if e[0] == "call" and last_seg(e[3]) in ("extend", "append", "push", "extend_from_slice", "insert", "splice") and self_field(e[4][2][0], "files")]
         rk = ret_kind(lf)
+        if received and not ext and _direct_push_loops(lv):
+            # pushed one by one inside the loop over the received descriptors (R12.1 decides which and in which order); the
+            # loop precedes every return of a receiving path, the end-of-stream one included
+            n += 1
+            closed = rk is not None and rk[0] == "Err" and look(rk[1])[0] == "agg" and look(rk[1])[2] == "ConnectionClosed"
+            ran = any(t[0] == "discr" and is_call(look(t[1]), "next") and option_is_some(c) is False for (t, c, _b) in lf.conds)
+            ctx.ob("R12.2", "appended|%s" % ("eof-path" if closed else "data-path"), ran, "the files just received are appended to self.files%s" % (" before ConnectionClosed is returned" if closed else ""), fn.loc(lf.bb))
+            continue
         if received:
             n += 1
             ok = len(ext) == 1 and last_seg(ext[0][3]) in ("extend", "append")
